@@ -188,7 +188,7 @@ pub fn run(pid: &str, func: &str, replay: Option<Value>, seed: u64) -> Value {
     let mut rng = Rng::new(seed ^ 0x21);
     let t0 = std::time::Instant::now();
     let mut rnd = 0;
-    while rnd < 3000 && t0.elapsed().as_secs_f64() < 10.0 {
+    while rnd < 3000 && t0.elapsed().as_secs_f64() < 90.0 {
         let len = 2 + rng.below(14) as usize;
         let ops = random_ops(&mut rng, len);
         rnd += 1;
